@@ -74,7 +74,6 @@ def run_impl(prop: str, seed: int, tier: str, timeout: int, replay: str | None =
         env.setdefault("OMP_NUM_THREADS", "1")
         env.setdefault("OPENBLAS_NUM_THREADS", "1")
         env.setdefault("MKL_NUM_THREADS", "1")
-        env.setdefault("NUMBA_NUM_THREADS", "1")
         env["PYTHONPATH"] = str(HERE) + os.pathsep + env.get("PYTHONPATH", "")
         t0 = time.time()
         try:
